@@ -13,7 +13,7 @@ import CliUtils.Props.C01
   very last event, and starts nothing after an abort.  The run model is a total function, so every run terminates with its
   stream complete (the `closed` flag of the correspondence is what is observed of the real channel).
   The full grammar (`Spec.eventsWellFormed`) is evaluated on every stream of the implementation and of the model (domain
-  sys-C13); its acceptance for ALL model runs is not proved as one theorem (kept as the executable predicate).
+  sys-C13); its acceptance for ALL model runs is `run_stream_well_formed` in `Props/C13G.lean` (helpers: `Lemmas/GrammarL.lean`).
 -/
 namespace CliUtils.Props.C13
 open CliUtils CliUtils.Sys
